@@ -6,8 +6,8 @@ Import ListNotations.
 
 (* ---------- the three properties, for every case, oracle, start state and call count ---------- *)
 
-Lemma factory_split sh we hf o s0 :
-  forall s1 cev cr, reg_new_factory sh we hf o s0 = (s1, cev, cr) ->
+Lemma factory_split sh we named hf o s0 :
+  forall s1 cev cr, reg_new_factory sh we named hf o s0 = (s1, cev, cr) ->
   creation_facts sh hf o cev cr /\
   match cr with
   | CrErr _ => True
@@ -20,9 +20,9 @@ Lemma factory_split sh we hf o s0 :
   end.
 Proof.
   intros s1 cev cr E. split.
-  - pose proof (factory_facts sh we hf o s0 st0) as H. unfold factory_facts_stmt in H. rewrite E in H. apply H.
+  - pose proof (factory_facts sh we named hf o s0 st0) as H. unfold factory_facts_stmt in H. rewrite E in H. apply H.
   - destruct cr as [f|e]; [|exact I]. intros s.
-    pose proof (factory_facts sh we hf o s0 s) as H. unfold factory_facts_stmt in H. rewrite E in H. apply H.
+    pose proof (factory_facts sh we named hf o s0 s) as H. unfold factory_facts_stmt in H. rewrite E in H. apply H.
 Qed.
 
 Ltac step_fact H s' :=
@@ -34,11 +34,11 @@ Ltac step_fact H s' :=
 Theorem configured_holds c o s : configured_b c o (run_case_from c o s) = true.
 Proof.
   unfold run_case_from. destruct (reg_register (cs_shape c)); cbn [negb]; [|reflexivity].
-  destruct (cs_req c) as [|we].
+  destruct (cs_req c) as [|we named].
   - cbn [configured_b]. rewrite run_news_run. apply run_forallb. intros s'.
     pose proof (new_step_facts (cs_shape c) (cs_hf c) o) as H. step_fact H s'. apply H.
-  - destruct (reg_new_factory (cs_shape c) we (cs_hf c) o s) as [[s1 cev] cr] eqn:E.
-    destruct (factory_split _ _ _ _ _ _ _ _ E) as [Hc Hs].
+  - destruct (reg_new_factory (cs_shape c) we named (cs_hf c) o s) as [[s1 cev] cr] eqn:E.
+    destruct (factory_split _ _ _ _ _ _ _ _ _ E) as [Hc Hs].
     destruct Hc as [_ [Hca _]].
     destruct cr as [f|e]; cbn [configured_b forallb]; rewrite Hca; cbn [andb]; [|reflexivity].
     rewrite run_calls_run. apply run_forallb. intros s'. unfold factory_cevs.
@@ -49,11 +49,11 @@ Theorem errors_hold c o s : errors_b c o (run_case_from c o s) = true.
 Proof.
   unfold run_case_from. destruct (reg_register (cs_shape c)) eqn:R; cbn [negb].
   2:{ cbn [errors_b]. rewrite R. reflexivity. }
-  destruct (cs_req c) as [|we] eqn:Q.
+  destruct (cs_req c) as [|we named] eqn:Q.
   - cbn [errors_b]. rewrite R, Q. cbn [andb]. rewrite run_news_run. apply run_forallb. intros s'.
     pose proof (new_step_facts (cs_shape c) (cs_hf c) o) as H. step_fact H s'. apply H.
-  - destruct (reg_new_factory (cs_shape c) we (cs_hf c) o s) as [[s1 cev] cr] eqn:E.
-    destruct (factory_split _ _ _ _ _ _ _ _ E) as [Hc Hs].
+  - destruct (reg_new_factory (cs_shape c) we named (cs_hf c) o s) as [[s1 cev] cr] eqn:E.
+    destruct (factory_split _ _ _ _ _ _ _ _ _ E) as [Hc Hs].
     destruct Hc as [Hstop [_ [Herr _]]].
     destruct cr as [f|e]; cbn [errors_b]; rewrite R, Q, Hstop, Herr; cbn [andb].
     + rewrite run_calls_run. apply run_forallb. intros s'.
@@ -78,11 +78,11 @@ Qed.
 Theorem fresh_holds c o s : fresh_b c o (run_case_from c o s) = true.
 Proof.
   unfold run_case_from. destruct (reg_register (cs_shape c)) eqn:R; cbn [negb]; [|reflexivity].
-  destruct (cs_req c) as [|we] eqn:Q.
+  destruct (cs_req c) as [|we named] eqn:Q.
   - cbn [fresh_b]. rewrite run_news_run.
     apply rounds_fresh_run with (hf := cs_hf c) (we := true). apply new_step_facts.
-  - destruct (reg_new_factory (cs_shape c) we (cs_hf c) o s) as [[s1 cev] cr] eqn:E.
-    destruct (factory_split _ _ _ _ _ _ _ _ E) as [Hc Hs].
+  - destruct (reg_new_factory (cs_shape c) we named (cs_hf c) o s) as [[s1 cev] cr] eqn:E.
+    destruct (factory_split _ _ _ _ _ _ _ _ _ E) as [Hc Hs].
     destruct Hc as [_ [_ [_ Hc]]].
     destruct (sh_ret (cs_shape c)) eqn:Rt.
     + destruct Hc as [C1 [C2 C3]].
@@ -114,15 +114,15 @@ Lemma new_product_arg_m sh hf o s :
   | _ => True
   end.
 Proof.
-  destruct s as [a d f c p]. destruct sh as [[] [] cerr perr [] rt]; destruct hf; norm; ranges.
+  destruct s as [a d f c p]. destruct sh as [[] [] cerr perr [] rt nm]; destruct hf; norm; ranges.
 Qed.
 
 Lemma new_product_arg sh hf o s s1 ev p :
   reg_new sh hf o s = (s1, ev, OOk p) -> p_arg p = expected_arg sh hf o s.
 Proof. intros H. pose proof (new_product_arg_m sh hf o s) as M. rewrite H in M. exact M. Qed.
 
-Lemma factory_product_arg_m sh we hf o s0 s :
-  match reg_new_factory sh we hf o s0 with
+Lemma factory_product_arg_m sh we named hf o s0 s :
+  match reg_new_factory sh we named hf o s0 with
   | (_, _, CrOk f) =>
       match call_factory sh we hf o s f with
       | (_, _, OOk p) =>
@@ -133,29 +133,29 @@ Lemma factory_product_arg_m sh we hf o s0 s :
   end.
 Proof.
   destruct s0 as [a0 d0 f0 c0 p0]. destruct s as [a d f c p].
-  destruct sh as [[] [] [] [] [] []]; destruct hf, we; norm; ranges.
+  destruct sh as [[] [] [] [] [] [] nm]; destruct hf, we; norm; ranges.
 Qed.
 
 (* plugin constructor behind a factory: the product of a call is built from a config made
    DURING that call (allocation, default and fill counters as they stand at the call) *)
-Lemma plugin_factory_product_arg sh we hf o s0 s1 cev f s s2 ev p :
+Lemma plugin_factory_product_arg sh we named hf o s0 s1 cev f s s2 ev p :
   sh_ret sh = RPlugin ->
-  reg_new_factory sh we hf o s0 = (s1, cev, CrOk f) ->
+  reg_new_factory sh we named hf o s0 = (s1, cev, CrOk f) ->
   call_factory sh we hf o s f = (s2, ev, OOk p) ->
   p_arg p = expected_arg sh hf o s.
 Proof.
-  intros R C K. pose proof (factory_product_arg_m sh we hf o s0 s) as M.
+  intros R C K. pose proof (factory_product_arg_m sh we named hf o s0 s) as M.
   rewrite C, K, R in M. exact M.
 Qed.
 
 (* factory constructor: every product is built from the one config made at creation *)
-Lemma factory_factory_product_arg sh we hf o s0 s1 cev f s s2 ev p :
+Lemma factory_factory_product_arg sh we named hf o s0 s1 cev f s s2 ev p :
   sh_ret sh = RFactory ->
-  reg_new_factory sh we hf o s0 = (s1, cev, CrOk f) ->
+  reg_new_factory sh we named hf o s0 = (s1, cev, CrOk f) ->
   call_factory sh we hf o s f = (s2, ev, OOk p) ->
   p_arg p = expected_arg sh hf o s0.
 Proof.
-  intros R C K. pose proof (factory_product_arg_m sh we hf o s0 s) as M.
+  intros R C K. pose proof (factory_product_arg_m sh we named hf o s0 s) as M.
   rewrite C, K, R in M. exact M.
 Qed.
 
@@ -164,7 +164,7 @@ Lemma call_alloc_mono sh we hf o s f :
   s_alloc s <= s_alloc (fst (fst (call_factory sh we hf o s f))).
 Proof.
   destruct s as [a d f0 c p].
-  destruct f as [|gc|n a'|n a']; destruct sh as [rt' [] cerr perr [] rt]; destruct hf; try destruct gc; norm; ranges.
+  destruct f as [|gc|n a'|n a']; destruct sh as [rt' [] cerr perr [] rt nm]; destruct hf; try destruct gc; norm; ranges.
 Qed.
 
 Lemma fresh_ids_nodup c o s calls :
@@ -181,3 +181,21 @@ Proof.
       apply andb_prop in F. destruct F as [F _]. apply andb_prop in F. apply F.
     + unfold rounds_fresh in F. apply andb_prop in F. destruct F as [F _]. apply andb_prop in F. apply F.
 Qed.
+
+(* the factory handed out has exactly the requested Go type (named or not): it is the
+   registered function itself only when the types are identical, a MakeFunc of the requested
+   type otherwise *)
+Lemma factory_type_m sh we named hf o s0 :
+  match reg_new_factory sh we named hf o s0 with
+  | (_, _, CrOk f) => factory_named sh named f = named
+  | _ => True
+  end.
+Proof.
+  destruct s0 as [a0 d0 f0 c0 p0].
+  destruct sh as [[] [] [] [] [] [] nm]; destruct hf, we, nm, named;
+    unfold reg_new_factory, same_type_name; norm; ranges.
+Qed.
+
+Lemma factory_type sh we named hf o s0 s1 cev f :
+  reg_new_factory sh we named hf o s0 = (s1, cev, CrOk f) -> factory_named sh named f = named.
+Proof. intros H. pose proof (factory_type_m sh we named hf o s0) as M. rewrite H in M. exact M. Qed.
